@@ -299,3 +299,146 @@ def searchsortedLeft (a : List Int) (v : Int) : Int :=
   ((a.takeWhile fun y => decide (y < v)).length : Int)
 
 end Tdms.Generated.Py
+
+/-! # Appended for `Tdms/Generated/Code2.lean` (scaling, sensors, writer, thermocouple, resource decisions)
+
+Same role as above: hand-written, trusted semantics of Python operations used by generated code. -/
+
+namespace Tdms.Generated.Py
+
+/-! ## dynamically typed property values
+
+A value of a TDMS property dict (and whatever the scaling classes store of it): a Python / numpy integer,
+a float, or a string.  Floats live in an arbitrary type `R` (the model evaluates over exact numbers, the
+theorems instantiate a ring / field); nothing is said about binary64 rounding. -/
+
+inductive Val (R : Type) where
+  | int (i : Int)
+  | num (v : R)
+  | str (s : List Char)
+
+namespace Val
+variable {R : Type}
+
+/-- the Python int `i` used as a float (`float(i)`, exact in the model) -/
+def ofInt [NatCast R] [Neg R] : Int → R
+  | .ofNat n => (n : R)
+  | .negSucc n => -((n + 1 : Nat) : R)
+
+/-- a value used as an operand of (numpy) arithmetic; a string operand raises (numpy: `UFuncTypeError`,
+    a subclass of `TypeError`) -/
+def toNum [NatCast R] [Neg R] : Val R → Except Exc R
+  | .int i => .ok (ofInt i)
+  | .num v => .ok v
+  | .str _ => .error "TypeError"
+
+/-- a value used as a list index or as the argument of `range` / `[x] * n`: only ints are accepted
+    (`TypeError` for floats and strings) -/
+def toIndex : Val R → Except Exc Int
+  | .int i => .ok i
+  | _ => .error "TypeError"
+
+/-- `int(v)`: the int itself.  Truncation of a float and parsing of a string are NOT modelled: the
+    pseudo exception "NotModelled" (the tied theorems assume an integer property) -/
+def toIntConv : Val R → Except Exc Int
+  | .int i => .ok i
+  | _ => .error "NotModelled"
+
+/-- `a == b`: numbers compare by value across int / float, strings with strings, a number never equals a string -/
+def eq [DecidableEq R] [NatCast R] [Neg R] : Val R → Val R → Bool
+  | .int a, .int b => decide (a = b)
+  | .num a, .num b => decide (a = b)
+  | .int a, .num b => decide (ofInt a = b)
+  | .num a, .int b => decide (a = ofInt b)
+  | .str a, .str b => decide (a = b)
+  | _, _ => false
+
+end Val
+
+/-- `"%d" % i` -/
+def fmtD (i : Int) : List Char := (toString i).toList
+
+/-- `k in d` -/
+def Dict.contains {κ ν : Type} [DecidableEq κ] (d : Dict κ ν) (k : κ) : Bool :=
+  (d.find? (fun kv => decide (kv.1 = k))).isSome
+
+/-- `d.keys()` -/
+def Dict.keys {κ ν : Type} (d : Dict κ ν) : List κ := d.map (·.1)
+
+/-- `d[v]` for a dict with `int` keys and a dynamically typed key `v` (a float key equal to an int key finds it,
+    as Python's hash / `==` do); `KeyError` -/
+def Dict.getV {R ν : Type} [DecidableEq R] [NatCast R] [Neg R] (d : Dict Int ν) (v : Val R) : Except Exc ν :=
+  match d.find? (fun kv => Val.eq (Val.int kv.1) v) with
+  | some kv => .ok kv.2
+  | none => .error "KeyError"
+
+/-- `try: m except cls:` where the handler leaves the enclosing block (`continue` / `return` / `raise`):
+    `none` = the handler has to run -/
+def tryOpt {α : Type} (m : Except Exc α) (cls : Exc) : Except Exc (Option α) :=
+  match m with
+  | .ok v => .ok (some v)
+  | .error e => if e = cls then .ok none else .error e
+
+/-- `next(g(y) for y in (f(x) for x in xs) if c(y))` on LAZY generators: `f` is evaluated element by element and
+    only until the first hit (`step x = some result`); `StopIteration` when there is none -/
+def firstE {α β : Type} (xs : List α) (step : α → Except Exc (Option β)) : Except Exc β :=
+  match xs with
+  | [] => .error "StopIteration"
+  | x :: rest =>
+    match step x with
+    | .error e => .error e
+    | .ok (some y) => .ok y
+    | .ok none => firstE rest step
+
+end Tdms.Generated.Py
+
+namespace Tdms.Generated.Py
+
+/-- `a | b`: `Nat.lor` on non-negative ints; a negative operand `-(n+1)` is the infinite two's complement `~n`
+    (`m | ~n = ~(n & ~m)`, `~m | ~n = ~(m & n)`) -/
+def bor : Int → Int → Int
+  | .ofNat m, .ofNat n => ((m ||| n : Nat) : Int)
+  | .ofNat m, .negSucc n => .negSucc (n - (m &&& n))
+  | .negSucc m, .ofNat n => .negSucc (m - (m &&& n))
+  | .negSucc m, .negSucc n => .negSucc (m &&& n)
+
+end Tdms.Generated.Py
+
+namespace Tdms.Generated.Py
+
+/-! ## sets (lists without order significance), dict helpers, sorting -/
+
+/-- `a - b` on sets: the elements of `a` that are not in `b` -/
+def setDiff {α : Type} [BEq α] (a b : List α) : List α := a.filter fun x => !b.contains x
+
+/-- `s.update(xs)` / `s | set(xs)`: `s` followed by the new elements of `xs` -/
+def setUnion {α : Type} [BEq α] (s xs : List α) : List α := s ++ (xs.eraseDups.filter fun x => !s.contains x)
+
+/-- `dict(pairs)`: later pairs overwrite earlier ones with the same key (position of the first occurrence kept) -/
+def Dict.ofPairs {κ ν : Type} [DecidableEq κ] (ps : List (κ × ν)) : Dict κ ν :=
+  ps.foldl (fun d kv => Dict.set d kv.1 kv.2) []
+
+/-- `d.update(e)` -/
+def Dict.update {κ ν : Type} [DecidableEq κ] (d e : Dict κ ν) : Dict κ ν :=
+  e.foldl (fun acc kv => Dict.set acc kv.1 kv.2) d
+
+/-- insertion of `x` (key `k`) behind every element whose key is `≤ k`: keeps the sort stable -/
+def insertByKey {α : Type} (k : Int) (x : α) : List (Int × α) → List (Int × α)
+  | [] => [(k, x)]
+  | (k', y) :: rest => if k < k' then (k, x) :: (k', y) :: rest else (k', y) :: insertByKey k x rest
+
+/-- `xs.sort(key=f)`: all keys are computed first (an exception of `f` propagates), the sort is stable.
+    (Python compares keys lazily: a key `None` only raises when it is compared; here it raises always.) -/
+def sortByKeyE {α : Type} (xs : List α) (key : α → Except Exc Int) : Except Exc (List α) :=
+  match mapE xs (fun x => match key x with | .ok k => .ok (k, x) | .error e => .error e) with
+  | .error e => .error e
+  | .ok kxs => .ok ((kxs.foldl (fun acc kx => insertByKey kx.1 kx.2 acc) []).map (·.2))
+
+end Tdms.Generated.Py
+
+namespace Tdms.Generated.Py
+
+/-- `s.endswith(suffix)` -/
+def endsWith (s suffix : List Char) : Bool := suffix.isSuffixOf s
+
+end Tdms.Generated.Py
